@@ -1,6 +1,9 @@
 package anthropic
 
-import "fmt"
+import (
+	"encoding/json"
+	"fmt"
+)
 
 // AnthropicRequest represents an Anthropic API request
 // Maps to the Anthropic Messages API format
@@ -67,6 +70,20 @@ type ContentBlock struct {
 	ID        string                 `json:"id,omitempty"`
 	Name      string                 `json:"name,omitempty"`
 	ToolUseID string                 `json:"tool_use_id,omitempty"`
+}
+
+// MarshalJSON keeps the "input" member on tool_use blocks whose tool takes no
+// arguments. Anthropic requires it, but omitempty drops an empty object, which made
+// the buffered translation disagree with the streamed one (partial_json "{}").
+func (c ContentBlock) MarshalJSON() ([]byte, error) {
+	type plain ContentBlock
+	if c.Type != contentTypeToolUse || len(c.Input) > 0 {
+		return json.Marshal(plain(c))
+	}
+	return json.Marshal(struct {
+		Input map[string]interface{} `json:"input"`
+		plain
+	}{Input: map[string]interface{}{}, plain: plain(c)})
 }
 
 // ImageSource represents image data in content blocks
